@@ -396,6 +396,7 @@ type perr =
 | E_unexpected_eof
 | E_newline_version
 | E_loading
+| E_include_depth
 | E_fatal_cycle
 | E_fatal_version
 | E_include_fuel
@@ -582,17 +583,24 @@ val lres_to_pres : lres -> bytes pres
 
 val remove_bytes : bytes -> bytes list -> bytes list
 
+val count_bytes : bytes -> bytes list -> nat
+
+val phony_filter : bytes -> bytes list -> nat -> bytes list * nat
+
 val maybe_phonycycle : rule -> bytes list -> nat -> nat -> bool
 
 val parse_edge : nat -> env -> lexer -> pstate -> (lexer * pstate) pres
 
 type loader = lexer -> bytes -> env -> pstate -> pstate pres
 
+val max_include_depth : nat
+
 val parse_include :
-  loader -> bool -> env -> lexer -> pstate -> (lexer * pstate) pres
+  loader -> nat -> bool -> env -> lexer -> pstate -> (lexer * pstate) pres
 
 val parse_loop :
-  nat -> nat -> loader -> env -> lexer -> pstate -> (lexer * pstate) pres
+  nat -> nat -> loader -> nat -> env -> lexer -> pstate -> (lexer * pstate)
+  pres
 
 val load :
   nat -> (bytes -> bytes option) -> nat -> lexer option -> bytes -> env ->
